@@ -754,6 +754,31 @@ def run_meta_triples(ctx: Ctx) -> RuleResult:
         res.finding(g, self_rets[0] if self_rets else g.node, '_pp_get_meta returns a child as the source of coordinates without testing that it is a '
                     'Token: a value without line / column (a str returned by a terminal callback) is read for positions', construct='returns:token-guard',
                     props=['C06', 'C16'])
+    # the callable form of propagate_positions: a child the filter rejects is never the source of coordinates, one it accepts can be
+    from ..exprs import satisfiable
+    gs = g.self_name() or 'self'
+    fcalls = [n for n in g.body_nodes() if isinstance(n, ast.Call) and norm(n.func) == '%s.node_filter' % gs and len(n.args) == 1 and norm(n.args[0]) == lv]
+    if not fcalls:
+        raise AnalysisError('R-META-TRIPLES: _pp_get_meta no longer calls %s.node_filter(%s)' % (gs, lv))
+    A_ = ast.parse('%s.node_filter is not None' % gs, mode='eval').body
+    B_ = fcalls[0]
+    val_rets = [n for n in g.body_nodes() if isinstance(n, ast.Return) and n.value is not None and not (isinstance(n.value, ast.Constant) and n.value.value is None)]
+    okf, whyf = bool(val_rets), 'no return'
+    for r_ in val_rets:
+        lits = list(_pc(r_))
+        rej = satisfiable(lits + [(A_, True), (B_, False)])
+        acc = satisfiable(lits + [(A_, True), (B_, True)])
+        non = satisfiable(lits + [(A_, False)])
+        if rej is None or acc is None:
+            raise AnalysisError('R-META-TRIPLES: the conditions of `%s` in _pp_get_meta are too many to decide' % norm(r_))
+        if rej or not acc or not non:
+            okf = False
+            whyf = '`%s` is %s' % (norm(r_), 'reachable for a child the filter rejects' if rej else
+                                   ('not reachable for a child the filter accepts' if not acc else 'not reachable without a filter'))
+    res.ob(g.loc(), 'with a callable propagate_positions, coordinates come from exactly the children the filter accepts', okf)
+    if not okf:
+        res.finding(g, fcalls[0], 'the node filter of propagate_positions is applied the wrong way round or not at all (%s): positions are taken from '
+                    'the children the user excluded' % whyf, construct='returns:filter-polarity')
     # non-empty test on tree metas
     tests = [norm(n.test) for n in g.body_nodes() if isinstance(n, ast.If)]
     ok = any('meta.empty' in t and 'not' in t for t in tests)
